@@ -2,7 +2,7 @@
    format_xyz_src, format_atomname_src and export_layout_src are regenerated from
    pdb2sql_base.py on every run (Generated_export.v). *)
 From Verif Require Import PyLib ModelTypes Generated_export Model_export Spec_parse Spec_export
-  Proofs_digits Proofs_export.
+  Generated_parse Model_parse Proofs_digits Proofs_export Proofs_export2 Proofs_reparse Proofs_reread.
 Open Scope Q_scope.
 
 (* a coordinate raises exactly outside (-1e7+0.5, 1e8-0.5); inside, it is the fixed-point
@@ -39,12 +39,58 @@ Theorem C02_atomname_alignment : forall nm el,
 Proof. exact format_atomname_spec. Qed.
 Print Assumptions C02_atomname_alignment.
 
-(* PARTIAL: the full statement also asks, for every fitting row d,
-     line_ok d line = true                      (every attribute in its wwPDB columns)
-     parse_record 0 line = Ok d' /\ approx_row d d' = true   (round trip)
-   These two are decided on every run by the executable spec (line_ok / approx_row) applied to the
-   implementation's output, and by the identity implementation = model on the same rows; they are
-   not yet theorems (missing: parse_int (str_of_Z z) = z, decimal_value (fmt_fixed ..) lemmas). *)
+(* every piece of the line — in particular every attribute — occupies exactly its own columns: the
+   substring of the exported line at the piece's offset is the rendered piece ... *)
+Theorem C02_piece_in_its_columns : forall d line k p,
+  fits d = true -> line_of_row d = Ok line -> nth_error export_layout_src k = Some p ->
+  exists s, render_piece d p = Ok s /\ String.length s = piece_len p /\ substring (offset k) (piece_len p) line = s.
+Proof. exact piece_in_its_columns. Qed.
+Print Assumptions C02_piece_in_its_columns.
+(* ... and in today's layout the offsets and widths of the thirteen attribute pieces ARE the wwPDB columns *)
+Theorem C02_layout_columns_are_wwpdb :
+  map (fun k => (offset k + 1, offset k + piece_len (nth k export_layout_src (PLit ""))))%nat [1; 3; 4; 5; 7; 8; 9; 11; 12; 13; 14; 15; 17]%nat
+  = map (fun f => snd (fst f)) wwpdb_cols.
+Proof. exact layout_columns_are_wwpdb. Qed.
+
+(* integer and text attributes are read back exactly from their right-justified fields *)
+Theorem C02_int_field_roundtrip : forall w z, int_ok (VInt z) (rjust w (str_of_Z z)) = true.
+Proof. exact int_field_roundtrip. Qed.
+Theorem C02_text_field_roundtrip : forall w s, clean s = true -> text_ok (VText s) (rjust w s) = true.
+Proof. exact text_field_roundtrip. Qed.
+Print Assumptions C02_int_field_roundtrip.
+
+(* reading back: float() of any fixed-point field the exporter writes is the printed decimal — the value
+   rounded at the printed precision — rounded once to binary64 ... *)
+Theorem C02_float_of_formatted : forall w p q, parse_float (fmt_fixed w p q) = NumOk (b64 (printed_value p q)).
+Proof. exact parse_float_fmt_fixed. Qed.
+Print Assumptions C02_float_of_formatted.
+(* ... so the parser's model (parse_field over the regenerated column table), applied to the exported line of
+   any fitting row, reads in the x, y, z columns the written coordinate within half a unit of the printed
+   precision, and in the occupancy / B-factor columns the written value within 0.005 *)
+Theorem C02_coordinates_reread : forall d line, fits d = true -> line_of_row d = Ok line ->
+  forall col k i, In (col, k, i) [("x"%string, 11%nat, 7%nat); ("y"%string, 12%nat, 8%nat); ("z"%string, 13%nat, 9%nat)] ->
+  exists q, real_of (nth i d VNull) = Some q
+    /\ parse_field line col "REAL" = Ok (Some (VReal (b64 (printed_value (xyz_decimals q) q))))
+    /\ Qabs (printed_value (xyz_decimals q) q - q) <= (1#2) / inject_Z (pow10 (xyz_decimals q)).
+Proof. exact coordinates_reread. Qed.
+Print Assumptions C02_coordinates_reread.
+Theorem C02_occupancy_bfactor_reread : forall d line, fits d = true -> line_of_row d = Ok line ->
+  forall col k i, In (col, k, i) [("occ"%string, 14%nat, 10%nat); ("temp"%string, 15%nat, 11%nat)] ->
+  exists q, real_of (nth i d VNull) = Some q
+    /\ parse_field line col "REAL" = Ok (Some (VReal (b64 (printed_value 2 q))))
+    /\ Qabs (printed_value 2 q - q) <= 5#1000.
+Proof. exact occupancy_bfactor_reread. Qed.
+Print Assumptions C02_occupancy_bfactor_reread.
+
+(* PARTIAL: the full statement also asks (a) "as many decimals as fit" for |x| >= 9999.5 in the form
+   coord_ok (max_fit / near_power_of_ten; the interval table xyz_decimals above is its closed form, their
+   agreement is checked by the executable spec on every run, not proved), (b) the whole-row statement
+   parse_record 0 line = Ok d' /\ approx_row d d' = true, of which the numeric fields are the three theorems
+   above up to the final binary64 rounding b64 (relative error 2^-53, accounted for by Spec_export.slack in the
+   executable comparison, no theorem), the integer and text fields are C02_int/text_field_roundtrip (not yet
+   composed through parse_field's blank-field defaults), and (c) idempotence of a second export.
+   (b) and (c) are decided on every run by the executable spec (line_ok / approx_row) applied to the
+   implementation's output and by implementation = model on the same rows. *)
 
 (* non-vacuity and the concrete renderings quoted in the property *)
 Example C02_examples :
